@@ -199,6 +199,8 @@ type GuardQuery struct {
 	// Observe, if set, is called after the fixpoint of every analysed function
 	// context for each call instruction in an executable block.
 	Observe func(in *ssa.Function, site ssa.CallInstruction, callee string, get func(ssa.Value) lat)
+	// ObserveInstr, if set, is called likewise for every instruction in an executable block.
+	ObserveInstr func(in *ssa.Function, instr ssa.Instruction, get func(ssa.Value) lat)
 	// ObserveStore, if set, is called likewise for every Store in an executable block.
 	ObserveStore func(in *ssa.Function, st *ssa.Store, get func(ssa.Value) lat)
 }
@@ -822,7 +824,7 @@ func (e *gEngine) analyse(f *ssa.Function, args []lat, depth int) *fnAnalysis {
 			push(bi)
 		}
 	}
-	if e.q.Observe != nil || e.q.ObserveStore != nil {
+	if e.q.Observe != nil || e.q.ObserveStore != nil || e.q.ObserveInstr != nil {
 		for _, b := range f.Blocks {
 			if !execBlock[b.Index] {
 				continue
@@ -834,6 +836,9 @@ func (e *gEngine) analyse(f *ssa.Function, args []lat, depth int) *fnAnalysis {
 				}
 				if st, ok := in.(*ssa.Store); ok && e.q.ObserveStore != nil {
 					e.q.ObserveStore(f, st, get)
+				}
+				if e.q.ObserveInstr != nil {
+					e.q.ObserveInstr(f, in, get)
 				}
 			}
 		}
